@@ -13,6 +13,8 @@ import (
 // FS is the in-memory file system behind the os / io/ioutil stubs, with a fault oracle:
 //   budget  - total bytes that may be written; the write that would exceed it is cut short and fails,
 //             and every later write fails (disk full)
+//   failOp  - the k-th fallible operation (create/open for writing, Write, Close of a written file, WriteFile)
+//             fails on its own (EIO): nothing of it reaches the file, every other operation succeeds
 //   crashAt - after this many mutations the disk image is frozen (process death): later mutations are dropped
 type FS struct {
 	files     map[string]*fsFile
@@ -24,6 +26,8 @@ type FS struct {
 	budget    int
 	written   int
 	failed    bool
+	failOp    int
+	ops       int
 	blobs     map[uint64]*jsonBlob
 	log       []string
 }
@@ -46,7 +50,7 @@ type jsonBlob struct {
 }
 
 func newFS() *FS {
-	return &FS{files: map[string]*fsFile{}, dirs: map[string]bool{}, open: map[int]*fsHandle{}, crashAt: -1, budget: -1, blobs: map[uint64]*jsonBlob{}}
+	return &FS{files: map[string]*fsFile{}, dirs: map[string]bool{}, open: map[int]*fsHandle{}, crashAt: -1, budget: -1, failOp: -1, blobs: map[uint64]*jsonBlob{}}
 }
 
 // mutate is called before every mutation of the image; it reports whether the mutation takes effect.
@@ -91,6 +95,16 @@ func (st *State) newFile(path string, write bool) *Term {
 	o := st.newObj(8, "alloc", "os.File:"+path)
 	st.fs.open[o.id] = &fsHandle{path: path, write: write}
 	return st.ptrTo(o, 0)
+}
+
+// opFails counts one fallible operation and reports whether it is the one chosen to fail.
+func (fs *FS) opFails() bool {
+	if fs.failOp < 0 {
+		return false
+	}
+	k := fs.ops
+	fs.ops++
+	return k == fs.failOp
 }
 
 // fsWrite appends data to a file honouring budget; returns bytes written and whether it failed.
@@ -142,6 +156,9 @@ func init() {
 	})
 	reg("os.OpenFile", func(st *State, th *Thread, a []Value, _ ssa.Instruction) (Value, bool) {
 		p := st.goString(a[0], "OpenFile path")
+		if st.fs.opFails() {
+			return Agg{st.zero64, st.fsErr("EIO open " + p)}, true
+		}
 		if st.fs.files[p] == nil {
 			if st.fs.mutate("create " + p) {
 				st.fs.files[p] = &fsFile{}
@@ -160,6 +177,9 @@ func init() {
 		h := st.fileHandle(a[0], "File.Write")
 		if h.closed {
 			return Agg{st.zero64, st.fsErr("file already closed")}, true
+		}
+		if st.fs.opFails() {
+			return Agg{st.zero64, st.fsErr("EIO write " + h.path)}, true
 		}
 		s := a[1].(SliceV)
 		data := st.byteTerms(s.Ptr, s.Len, "File.Write data")
@@ -208,6 +228,9 @@ func init() {
 			return st.fsErr("file already closed"), true
 		}
 		h.closed = true
+		if h.write && st.fs.opFails() {
+			return st.fsErr("EIO close " + h.path), true
+		}
 		return IfaceV{}, true
 	})
 	readFile := func(st *State, th *Thread, a []Value, _ ssa.Instruction) (Value, bool) {
@@ -234,6 +257,9 @@ func init() {
 		data := st.byteTerms(s.Ptr, s.Len, "WriteFile data")
 		if st.fs.mutate("create " + p) {
 			st.fs.files[p] = &fsFile{}
+		}
+		if st.fs.opFails() {
+			return st.fsErr("EIO write " + p), true
 		}
 		pos := 0
 		_, fail := st.fsWrite(p, data, &pos)
@@ -277,6 +303,14 @@ func init() {
 		st.fs.failed = false
 		return nil, true
 	}
+	h["vFSFailOp"] = func(st *State, th *Thread, a []Value, _ ssa.Instruction) (Value, bool) {
+		st.fs.failOp = int(int64(st.concretize(tw(a[0]), "failing operation index")))
+		st.fs.ops = 0
+		return nil, true
+	}
+	h["vFSOps"] = func(st *State, th *Thread, a []Value, _ ssa.Instruction) (Value, bool) {
+		return st.c.Const(64, uint64(st.fs.ops)), true
+	}
 	h["vFSCrashAt"] = func(st *State, th *Thread, a []Value, _ ssa.Instruction) (Value, bool) {
 		st.fs.crashAt = int(int64(st.concretize(tw(a[0]), "crash index")))
 		st.fs.mutations = 0
@@ -284,7 +318,7 @@ func init() {
 		return nil, true
 	}
 	h["vFSHeal"] = func(st *State, th *Thread, a []Value, _ ssa.Instruction) (Value, bool) {
-		st.fs.budget, st.fs.failed, st.fs.crashAt, st.fs.frozen = -1, false, -1, false
+		st.fs.budget, st.fs.failed, st.fs.crashAt, st.fs.frozen, st.fs.failOp = -1, false, -1, false, -1
 		for _, hd := range st.fs.open {
 			hd.closed = true
 		}
